@@ -38,7 +38,7 @@ fn ensure_no_aslr() {
         if libc::personality(cur as libc::c_ulong | ADDR_NO_RANDOMIZE) == -1 {
             return;
         }
-        let exe = std::env::current_exe().expect("current_exe");
+        let exe = std::path::PathBuf::from("/proc/self/exe"); // survives a rebuild that replaces the binary on disk
         let args: Vec<String> = std::env::args().skip(1).collect();
         let err = Command::new(exe).args(args).env("PARSESIM_REEXEC", "1").exec();
         eprintln!("HARNESS-ERROR re-exec failed: {err}");
@@ -97,7 +97,7 @@ fn cmd_fanout(args: &[String]) -> i32 {
     let file = arg(args, "--file").expect("--file");
     let text = std::fs::read_to_string(&file).expect("read cmds");
     let cmds: Vec<&str> = text.lines().collect();
-    let exe = std::env::current_exe().expect("current_exe");
+    let exe = std::path::PathBuf::from("/proc/self/exe"); // survives a rebuild that replaces the binary on disk
     let next = AtomicUsize::new(0);
     let results: Mutex<Vec<Option<(i32, Vec<u8>)>>> = Mutex::new(vec![None; cmds.len()]);
     std::thread::scope(|s| {
